@@ -39,7 +39,7 @@ SniffOK(pre, hooks) == \A i \in DOMAIN hooks : hooks[i].ev = "Open" =>
       /\ hooks[i].exists = (pre.kind # "absent")
       /\ (pre.kind = "cas" => hooks[i].sniffed = "CASSETTE") /\ (pre.kind = "dsk" => hooks[i].sniffed = "DISK")
 WroteOK(pre, cmd, cat, hooks) == \A i \in DOMAIN hooks : (hooks[i].ev = "Save" /\ hooks[i].wrote) =>
-      \E post \in Allowed(pre, cmd, LAMBDA ids : FitsOn(cat, ids)) : post # pre
+      ((\E post \in Allowed(pre, cmd, LAMBDA ids : FitsOn(cat, ids)) : post # pre) \/ (cmd.app /\ Compatible(pre, cmd.sw)))   \* (an append of nothing rewrites the same content)
 Judge1(cat, pre, e) ==
   LET cmd == e.cmd
       F(ids) == FitsOn(cat, ids)
